@@ -155,6 +155,69 @@ Proof.
     now apply mirrors_list_sound.
 Qed.
 
+(* ---- (3') the same up to the order of siblings: what the monitor evaluates ---- *)
+Lemma take1_sound {A} (f : A -> bool) l : forall l', take1 f l = Some l' -> exists q, f q = true /\ Permutation l (q :: l').
+Proof.
+  induction l as [|x r IH]; cbn; intros l' E; [discriminate|].
+  destruct (f x) eqn:Ex.
+  - inversion E; subst. exists x. split; [assumption|apply Permutation_refl].
+  - destruct (take1 f r) as [r'|] eqn:Er; [|discriminate]. inversion E; subst.
+    destruct (IH r' eq_refl) as [q [Hq Hp]]. exists q. split; [assumption|].
+    eapply Permutation_trans; [apply perm_skip, Hp|apply perm_swap].
+Qed.
+Definition mirrors_perm_list :=
+  fix go (x : list htree) (y : list dnode) : bool :=
+    match x with
+    | [] => match y with [] => true | _ => false end
+    | p :: r => match take1 (mirrors_perm_b p) y with Some y' => go r y' | None => false end
+    end.
+Lemma mirrors_perm_b_cons i c0 cr id body s col :
+  mirrors_perm_b (HNode i (c0 :: cr)) (DCluster id body s col) =
+  Z.eqb id (ni_idx i) && Z.eqb (ns_id s) (ni_idx i) && mirrors_perm_list (c0 :: cr) body.
+Proof. reflexivity. Qed.
+Lemma mirrors_perm_list_map c l :
+  Forall (fun t => mirrors_perm_b t (viz_node c t) = true) l -> mirrors_perm_list l (map (viz_node c) l) = true.
+Proof. induction 1 as [|x r Hx Hr IHr]; [reflexivity|]. cbn [map mirrors_perm_list take1]. now rewrite Hx. Qed.
+Lemma render_mirrors_perm_b c t : mirrors_perm_b t (viz_node c t) = true.
+Proof.
+  induction t as [i ch IH] using htree_ind2. destruct ch as [|c0 cr]; [cbn; apply Z.eqb_refl|].
+  change (viz_node c (HNode i (c0 :: cr))) with
+    (DCluster (ni_idx i) (map (viz_node c) (c0 :: cr)) (stmt_of c i true) (p_edge (c_pal c))).
+  rewrite mirrors_perm_b_cons. cbn [stmt_of ns_id]. rewrite !Z.eqb_refl. cbn [andb].
+  now apply mirrors_perm_list_map.
+Qed.
+Lemma mirrors_perm_list_sound l :
+  Forall (fun t => forall d, mirrors_perm_b t d = true -> MirrorsP t d) l ->
+  forall body, mirrors_perm_list l body = true -> exists body', Permutation body body' /\ Forall2 MirrorsP l body'.
+Proof.
+  induction 1 as [|x r Hx Hr IHr]; intros body E.
+  - destruct body; [|discriminate]. exists []. split; constructor.
+  - cbn [mirrors_perm_list] in E. destruct (take1 (mirrors_perm_b x) body) as [y'|] eqn:Et; [|discriminate].
+    apply take1_sound in Et. destruct Et as [q [Hq Hp]]. destruct (IHr y' E) as [b' [Hp' Hf]].
+    exists (q :: b'). split; [eapply Permutation_trans; [exact Hp|now apply perm_skip]|].
+    constructor; [now apply Hx|assumption].
+Qed.
+Lemma mirrors_perm_b_sound t : forall d, mirrors_perm_b t d = true -> MirrorsP t d.
+Proof.
+  induction t as [i ch IH] using htree_ind2. intros d E. destruct ch as [|c0 cr].
+  - destruct d; cbn in E; [|discriminate]. constructor. now apply Z.eqb_eq.
+  - destruct d as [|id body s col]; [discriminate|]. rewrite mirrors_perm_b_cons in E.
+    apply andb_prop in E. destruct E as [E1 E3]. apply andb_prop in E1. destruct E1 as [E1 E2].
+    apply Z.eqb_eq in E1, E2. destruct (mirrors_perm_list_sound _ IH _ E3) as [b' [Hp Hf]].
+    econstructor; [discriminate|assumption|assumption|exact Hp|exact Hf].
+Qed.
+(* the ordered statement implies the one up to order *)
+Lemma mirrors_weaken t : forall d, Mirrors t d -> MirrorsP t d.
+Proof.
+  induction t as [i ch IH] using htree_ind2. intros d H. inversion H as [i0 s0 Hs|i0 ch0 id body s col Hne Hid Hs Hf]; subst.
+  - now constructor.
+  - econstructor; [assumption|reflexivity|assumption|apply Permutation_refl|].
+    clear H Hne. induction Hf as [|x y r r' Hxy Hr IHr]; [constructor|].
+    inversion IH as [|? ? Hx Hrest]; subst. constructor; [now apply Hx|now apply IHr].
+Qed.
+Lemma render_mirrors_perm c t : MirrorsP t (viz_node c t).
+Proof. apply mirrors_weaken, render_mirrors. Qed.
+
 (* ---- (4) one edge statement per link, right endpoints, value edges labelled by type ---- *)
 Lemma render_edges c ls : map edge_of_stmt (map (viz_link c) ls) = map edge_of_link ls.
 Proof. rewrite map_map. apply map_ext. intros l. reflexivity. Qed.
@@ -176,7 +239,7 @@ Lemma render_meets_spec c h :
 Proof.
   intros Hnd Hp. unfold spec_b.
   rewrite (render_nodes_once_b c h Hp), (render_stmts_carry c h Hnd), render_edges_once_b.
-  cbn [render d_top]. now rewrite render_mirrors_b.
+  cbn [render d_top]. now rewrite render_mirrors_perm_b.
 Qed.
 
 (* ---- (5) configurations: only colours and the qualification of names differ ---- *)
